@@ -128,7 +128,9 @@ Registered == {"at_optional", "maybe_front", "maybe_back", "pop_back", "pop_fron
                \* extension round
                "io_get", "io_peek", "io_extract_int", "io_expect_int", "extract_enum", "enum_array_at", "parse_help",
                "grammar_parse_string", "optional_from", "optional_to_exception", "optional_to_pointer", "optional_copy_value",
-               "optional_from_pointer", "optional_deref", "getenv", "args", "gmtime"}
+               "optional_from_pointer", "optional_deref", "getenv", "args", "gmtime",
+               \* round 3
+               "parse_stream"}
 
 Outcome(r) ==
   CASE r.f = "at_optional" -> OneOf(r.i < Len(r.xs))
@@ -182,8 +184,15 @@ Outcome(r) ==
     [] r.f = "getenv" -> OneOf(r.set)
     (* fcppt::args: "Copy main arguments into a container"; args_from_second: "... starting from the second" *)
     [] r.f = "args" -> {"value"}
-    (* time::gmtime: "\throw std::runtime_error on failure." *)
-    [] r.f = "gmtime" -> {"value", "exception:std::runtime_error"}
+    (* time::gmtime: "\throw std::runtime_error on failure."  A time stamp within +-2^31 seconds of the epoch (years
+       1901..2038) has a representable broken-down time, so the call has to return it (statement of C01: "returns
+       normally for every argument value whose mathematically exact result is representable"); the documented
+       exception is only accepted outside that range. *)
+    [] r.f = "gmtime" -> IF r.t >= -2147483647 /\ r.t <= 2147483647 THEN {"value"} ELSE {"value", "exception:std::runtime_error"}
+    (* parse::phrase_parse(_stream): "This function also catches all exceptions produced by _input and returns them
+       as an error."  Whatever the state of the stream (badbit set, a buffer that cannot tell / seek): a value or an
+       either failure, never an exception.  Which of the two is C02's business. *)
+    [] r.f = "parse_stream" -> {"value", "failure"}
     [] r.f = "parse_string" ->
          IF r.g = "int" /\ r.sk = "none"
          THEN LET neg == r.s # <<>> /\ Head(r.s) = 45
